@@ -108,6 +108,10 @@ def impl_env(extra=None):
         if k.startswith("JSONARGPARSE_") and k != "JSONARGPARSE_VERIF":
             del env[k]
     env.pop("COLUMNS", None)
+    if env.get("VERIF_LINECOV_DIR"):
+        # bin/anchor-cov only: record which lines of the implementation the runners execute (tie/cov/sitecustomize.py)
+        env["PYTHONPATH"] = REPO + os.pathsep + os.path.join(ROOT, "tie", "cov")
+        env["VERIF_LINECOV_ROOT"] = REPO
     if extra:
         env.update(extra)
     return env
